@@ -1396,10 +1396,26 @@ fn c14(cases_path: &str, from: usize, out: &mut dyn Write) {
     use rand::SeedableRng as _;
     let v: Value = serde_json::from_str(&std::fs::read_to_string(cases_path).unwrap()).unwrap();
     let tmpls = templates();
+    // the code under test may block the very thread that polls it (a lock taken twice): no in-process time-out can
+    // fire then.  A watchdog thread ends the process; the case without an output line is the one that hung.
+    static CASE_STARTED: std::sync::atomic::AtomicU64 = std::sync::atomic::AtomicU64::new(0);
+    static CASE_NO: std::sync::atomic::AtomicU64 = std::sync::atomic::AtomicU64::new(0);
+    let now_s = || std::time::SystemTime::now().duration_since(std::time::UNIX_EPOCH).map(|d| d.as_secs()).unwrap_or(0);
+    std::thread::spawn(move || loop {
+        std::thread::sleep(std::time::Duration::from_secs(2));
+        let t = CASE_STARTED.load(std::sync::atomic::Ordering::SeqCst);
+        let now = std::time::SystemTime::now().duration_since(std::time::UNIX_EPOCH).map(|d| d.as_secs()).unwrap_or(0);
+        if t != 0 && now > t + 60 {
+            eprintln!("WATCHDOG: case {} did not come back within 60 s - the thread polling the session is blocked", CASE_NO.load(std::sync::atomic::Ordering::SeqCst));
+            std::process::exit(97);
+        }
+    });
     for (k, c) in v["cases"].as_array().unwrap().iter().enumerate() {
         if k < from {
             continue;
         }
+        CASE_NO.store(k as u64, std::sync::atomic::Ordering::SeqCst);
+        CASE_STARTED.store(now_s(), std::sync::atomic::Ordering::SeqCst);
         let tname = c["tmpl"].as_str().unwrap_or("");
         let Some((_, op, tree)) = tmpls.iter().find(|(n, _, _)| *n == tname) else { continue };
         let base = xmlgen::render(tree, &Style::default());
@@ -1407,8 +1423,17 @@ fn c14(cases_path: &str, from: usize, out: &mut dyn Write) {
         // the damaged message is made once the message-id of the request it answers is known (the ids are the
         // library's business); for a hello there is none
         let make = |id2: &str| -> Vec<u8> {
-            let base = base0.replace("@ID@", if c["op"] == "hugeint" { "@ID@" } else { id2 });
-            mutate(base.as_bytes(), c["op"].as_str().unwrap_or("none"), c["p"].as_u64().unwrap_or(0) as usize,
+            // a well-formed reply that names a request nobody made: far beyond the last id, zero, the largest number
+            // the id type holds, one below the first id
+            let stray = match c["op"].as_str().unwrap_or("") {
+                "strayid-far" => Some((id2.parse::<u64>().unwrap_or(2) + 1000).to_string()),
+                "strayid-next" => Some((id2.parse::<u64>().unwrap_or(2) + 2).to_string()),
+                "strayid-zero" => Some("0".to_string()),
+                "strayid-max" => Some(u64::MAX.to_string()),
+                _ => None,
+            };
+            let base = base0.replace("@ID@", if c["op"] == "hugeint" { "@ID@" } else { stray.as_deref().unwrap_or(id2) });
+            mutate(base.as_bytes(), if stray.is_some() { "none" } else { c["op"].as_str().unwrap_or("none") }, c["p"].as_u64().unwrap_or(0) as usize,
                    c["q"].as_u64().unwrap_or(0) as usize, c["seed"].as_u64().unwrap_or(k as u64))
         };
         let mut ev = json!({"ev": "c14", "case": k, "c": c});
@@ -1512,6 +1537,7 @@ fn c14(cases_path: &str, from: usize, out: &mut dyn Write) {
         // case that killed it is the first one without a line
         out.flush().unwrap();
     }
+    CASE_STARTED.store(0, std::sync::atomic::Ordering::SeqCst);
 }
 
 fn main() {
